@@ -182,13 +182,17 @@ func (n *Node) setupExec(ctx context.Context) (executor.Executor, error) {
 			util.SplitCommandWithParse(n.data.Step.CmdWithArgs)
 	}
 
+	// The script file is passed as the last argument of this execution only:
+	// appending it to the step itself would pile up the (already removed)
+	// script files of earlier launches when the step is retried.
+	step := n.data.Step
 	if n.scriptFile != nil {
 		var args []string
 		args = append(args, n.data.Step.Args...)
-		n.data.Step.Args = append(args, n.scriptFile.Name())
+		step.Args = append(args, n.scriptFile.Name())
 	}
 
-	cmd, err := executor.NewExecutor(ctx, n.data.Step)
+	cmd, err := executor.NewExecutor(ctx, step)
 	if err != nil {
 		return nil, err
 	}
